@@ -12,7 +12,7 @@ from mirsym.harness import Session
 from mirsym.interp import Unsupported, PathAbort
 from mirsym import bmc, sync
 from mirsym.sync import Captured, TaskObj
-from mirsym.report import Violation
+from mirsym.report import Violation, is_open_known
 from props.c07 import describe
 
 LEVEL = 'model_checking'
@@ -214,6 +214,7 @@ def startup_state(S, n_dispatch, n_dyn, max_events, tasks_return=False, drop_poo
     r, m, dt = enc.solve(allparked, timeout_ms=120000)
     if r != z3.sat:
         raise Unsupported('start-up schedule does not reach the idle state (%s): the worker start-up changed shape' % r)
+    enc0.startup_ops = enc.trace_ops(m)
     return enc0, hooks, enc.final_state(m), enc.pinned_results(m), sched
 
 
@@ -274,20 +275,20 @@ def run(L, rep, tier, seed):
         rep.functions.update(enc0.encoded)
         qs = pool_queries(enc, 'kf_enqueue_without_idle_waiter', only)
         qs = [(a, b, list(c) + pins) for (a, b, c) in qs]
-        res = bmc.solve_many(enc, qs, timeout_ms=300000, seed=seed, jobs=int(os.environ.get('VERIF_JOBS', '14')))
+        res = bmc.solve_many(enc, qs, timeout_ms=300000, seed=seed, jobs=int(os.environ.get('VERIF_JOBS', '14')), extract=lambda e, m: e.replay_info(m))
         rep.states += sum(len(t.locs) for t in enc.threads)
         rep.transitions += len(enc.cmds)
         rep.bounds[name] = {'dispatches': n, 'initial_workers_from_MIR': enc0.n_init, 'dynamic_worker_slots': ndyn, 'K_steps_after_startup': K,
                             'startup_schedule_steps': len(sched), 'max_events_per_worker': me, 'commands': len(enc.cmds),
                             'lock_protected_objects': enc.protected, 'build_s': round(time.time() - t0, 1)}
-        report_results(rep, 'C08', name, res, KNOWN, [name, n, ndyn, K])
+        report_results(rep, 'C08', name, res, KNOWN, [name, n, ndyn, K], replayer=lambda v, info, so=enc0.startup_ops, n=n: replay_pool(L, v, rep, info, so, n))
     accept_path(L, rep, tier, seed)
     # worker bookkeeping (registrations balanced when a surplus worker retires): the dispatch decision relies on it
     from props import c20
     c20.worker_contract(L, rep, tier, seed, prop='C08')
 
 
-def report_results(rep, prop, name, res, known, cfg):
+def report_results(rep, prop, name, res, known, cfg, replayer=None):
     for (qn, verdict, secs, tr, exx) in res:
         rep.queries += 1
         rep.solver_seconds += secs
@@ -305,7 +306,13 @@ def report_results(rep, prop, name, res, known, cfg):
             key = known.get(qn)
             rep.obligation(full, 'sat', seconds=round(secs, 1), known_finding=key)
             rep.sample({'violation': full, 'schedule': tr})
-            rep.violation(Violation(prop, key, '%s: %s' % (full, describe(tr)), {'kind': 'schedule', 'config': cfg, 'query': qn, 'schedule': tr}, full))
+            v = Violation(prop, key, '%s: %s' % (full, describe(tr)), {'kind': 'schedule', 'config': cfg, 'query': qn, 'schedule': tr}, full)
+            if not is_open_known(prop, key) and exx and replayer and os.environ.get('VERIF_NO_REPLAY') != '1':
+                try:
+                    replayer(v, exx)
+                except Exception as e:
+                    v.replay_note = 'schedule replay machinery failed: %r' % (e,)
+            rep.violation(v)
         else:
             rep.obligation(full, 'unknown', seconds=round(secs, 1), solver=verdict)
             if not qn.endswith('known-finding-still-present'):
@@ -336,3 +343,25 @@ def accept_path(L, rep, tier, seed):
     S.run('accept-path', h, witnesses=['setup'], bound='RefinedTcpStream::new + ClientConnection::new on a connection whose client sends nothing')
     for (label, sc, st, nm) in S.last_violations[:1]:
         rep.violation(Violation('C08', None, 'accept-path/%s violated: %s' % (label, sc), sc, 'accept-path/' + label))
+
+
+def replay_pool(L, v, rep, info, startup_ops, n, tasks='park', drop=False):
+    """start-up prefix + counterexample schedule on the real task_pool.rs under the controlled runtime; the predicted set of
+    (connection, worker) starts and the predicted parked threads must be observed"""
+    from mirsym import replay_sched
+    ops = list(startup_ops) + list(info['ops'])
+    words = ['new'] + ['spawn %d' % i for i in range(1, n + 1)] + (['drop'] if drop else [])
+    # only the dispatches the schedule actually starts are part of the program
+    started = sum(1 for (t, o, p) in info['ops'] if t == 'disp' and o == 'observe' and p.get('what') == 'dispatched')
+    disp_ops = [(t, o, p) for (t, o, p) in info['ops'] if t == 'disp']
+    begun = started + (1 if disp_ops and not (disp_ops[-1][1] == 'observe') else 0)
+    words = ['new'] + ['spawn %d' % i for i in range(1, min(n, begun) + 1)]
+    threads = [('disp', ' ; '.join(words))]
+    runs = sorted((p.get('id'), t) for (t, o, p) in ops if o == 'task_run' and p.get('id') is not None)
+    pred = {'task_runs': runs} if runs or not any(o == 'task_run' for (_, o, _) in ops) else {}
+    pred['parked'] = [x for x in info['parked'] if x != 'disp']
+    v.scenario['threads'] = threads
+    v.scenario['ops'] = ops
+    replay_sched.confirm(L, v, 'pool', threads, dict(info, ops=ops), pred, extra={'tasks': tasks})
+    if v.reproduced is not None:
+        rep.replays += 1
